@@ -1,20 +1,42 @@
 package interp
 
-// Sequential models of sync primitives (used when the cooperative scheduler is off, and as the
-// base of the scheduler's versions). State lives in side tables keyed by the primitive's
-// address; tables are cleared at every path start except entries created by package
-// initialisers.
+import (
+	"go/types"
+)
+
+// Models of the sync primitives. State lives in side tables keyed by the primitive's address;
+// the tables are cleared at every path start except entries created by package initialisers.
+// Without guest goroutines the operations have their sequential meaning (a second Lock by the
+// only goroutine, or a Wait nobody can end, is a reported deadlock).
 
 type lockState struct {
-	held    int // number of holders (readers) or 1 for exclusive
+	held    int
 	waiters []*goroutine
+	vc      []int
+}
+
+type wgState struct {
+	waiters []*goroutine
+	vc      []int
 }
 
 type syncTables struct {
-	locks map[*value]*lockState
-	once  map[*value]bool
-	wg    map[*value]int
-	conds map[*value]*condState
+	locks  map[*value]*lockState
+	once   map[*value]bool
+	onceVC map[*value]*[]int
+	wg     map[*value]int
+	wgs    map[*value]*wgState
+	conds  map[*value]*condState
+	atoms  map[*value]*[]int
+}
+
+func (t *syncTables) wgState(p *value) *wgState {
+	st := t.wgs[p]
+	if st == nil {
+		st = &wgState{}
+		t.wgs[p] = st
+	}
+	return st
 }
 
 type condState struct {
@@ -24,7 +46,8 @@ type condState struct {
 
 func (i *interpreter) syncT() *syncTables {
 	if i.syncTab == nil {
-		i.syncTab = &syncTables{locks: map[*value]*lockState{}, once: map[*value]bool{}, wg: map[*value]int{}, conds: map[*value]*condState{}}
+		i.syncTab = &syncTables{locks: map[*value]*lockState{}, once: map[*value]bool{}, onceVC: map[*value]*[]int{},
+			wg: map[*value]int{}, wgs: map[*value]*wgState{}, conds: map[*value]*condState{}, atoms: map[*value]*[]int{}}
 	}
 	return i.syncTab
 }
@@ -70,6 +93,11 @@ func (i *interpreter) onceDo(fr *frame, p *value, f value) value {
 		i.sched.yield(i, "once")
 	}
 	if t.once[p] || i.onceInit[p] {
+		if i.sched != nil {
+			if vc := t.onceVC[p]; vc != nil {
+				i.sched.acquire(*vc)
+			}
+		}
 		return nil
 	}
 	if i.inInit {
@@ -77,7 +105,14 @@ func (i *interpreter) onceDo(fr *frame, p *value, f value) value {
 	} else {
 		t.once[p] = true
 	}
+	// note: a second goroutine arriving while f runs would block in the real Once; the model
+	// runs f without yielding inside Do only if f itself does not synchronise.
 	i.call(fr, 0, f, nil)
+	if i.sched != nil {
+		vc := []int{}
+		t.onceVC[p] = &vc
+		i.sched.release(t.onceVC[p])
+	}
 	return nil
 }
 
@@ -105,19 +140,50 @@ func (i *interpreter) wgWait(p *value) value {
 	return nil
 }
 
-func (i *interpreter) newCond(l value) value {
-	// *sync.Cond: allocate the real struct shape lazily is not needed; keep locker in a side table
-	var cell value = structure{l}
+// newCond builds a *sync.Cond whose L field is the given Locker.
+func (i *interpreter) newCond(fr *frame, l value) value {
+	var cell value
+	if fr != nil && fr.fn != nil {
+		T := deref(fr.fn.Signature.Results().At(0).Type())
+		cell = zero(T)
+		if st, ok := T.Underlying().(*types.Struct); ok {
+			for k := 0; k < st.NumFields(); k++ {
+				if st.Field(k).Name() == "L" {
+					cell.(structure)[k] = l
+				}
+			}
+		}
+	} else {
+		cell = structure{l}
+	}
 	p := &cell
 	i.syncT().conds[p] = &condState{locker: l}
 	return p
 }
 
-func (i *interpreter) condWait(fr *frame, p *value) value {
-	cs := i.syncT().conds[p]
+func (i *interpreter) condState(p *value) *condState {
+	t := i.syncT()
+	cs := t.conds[p]
 	if cs == nil {
-		panic(unsupported("sync.Cond not created by sync.NewCond"))
+		// a Cond built as a struct literal (sync.Cond{L: ...}): find the Locker field
+		if st, ok := (*p).(structure); ok {
+			for _, f := range st {
+				if it, ok := f.(iface); ok && it.t != nil {
+					cs = &condState{locker: it}
+					t.conds[p] = cs
+					break
+				}
+			}
+		}
 	}
+	if cs == nil {
+		panic(unsupported("sync.Cond without a Locker"))
+	}
+	return cs
+}
+
+func (i *interpreter) condWait(fr *frame, p *value) value {
+	cs := i.condState(p)
 	if i.sched != nil {
 		i.sched.condWait(i, fr, p, cs)
 		return nil
@@ -127,10 +193,7 @@ func (i *interpreter) condWait(fr *frame, p *value) value {
 }
 
 func (i *interpreter) condSignal(p *value, all bool) value {
-	cs := i.syncT().conds[p]
-	if cs == nil {
-		panic(unsupported("sync.Cond not created by sync.NewCond"))
-	}
+	cs := i.condState(p)
 	if i.sched != nil {
 		i.sched.condSignal(i, cs, all)
 	}
@@ -140,6 +203,15 @@ func (i *interpreter) condSignal(p *value, all bool) value {
 func (i *interpreter) atomicPoint(p *value) {
 	if i.sched != nil {
 		i.sched.yield(i, "atomic")
+		t := i.syncT()
+		vc := t.atoms[p]
+		if vc == nil {
+			v := []int{}
+			vc = &v
+			t.atoms[p] = vc
+		}
+		i.sched.acquire(*vc)
+		i.sched.release(vc)
 	}
 }
 
